@@ -7,6 +7,7 @@ applied exactly once, requirements on already applied evolutions must be
 ignored, and contradictory requirements must be reported as an error with
 the database untouched.
 """
+import os
 import random
 
 from .. import projlab, seqcase
@@ -261,3 +262,301 @@ def run_case(desc):
     return {'key': 'pipeline:' + S.canon(g2),
             'nontrivial': bool(g['constraints']), 'items': items,
             'stats': stats, 'case': g2}
+
+
+# ------------------------------------------------------------------------
+# pool "pipeline_mig": evolution apps next to apps managed by migrations,
+# AFTER_/BEFORE_MIGRATIONS requirements of evolutions, Django's own
+# migration dependencies (within and across apps), migrations partly applied
+
+MIG_SIZES = {'quick': 60, 'thorough': 600}
+EVO_APPS = ('app1', 'app2')
+MIG_APPS = ('app4', 'app5')
+
+
+def plan_mig(tier, es):
+    return [{'mode': 'pipeline_mig', 'seed': es, 'i': i}
+            for i in range(MIG_SIZES[tier])]
+
+
+def gen_mig(rng):
+    eapps = list(EVO_APPS[:rng.randint(1, 2)])
+    mapps = list(MIG_APPS[:rng.randint(1, 2)])
+    nevo = {a: rng.randint(1, 2) for a in eapps}
+    nmig = {a: rng.randint(1, 3) for a in mapps}
+    # what is already applied: evolution apps at version 0 or partly; a
+    # migration app is either not installed yet (0) or has a prefix applied
+    applied_e = {a: rng.randint(0, nevo[a] - 1) for a in eapps}
+    applied_m = {a: rng.choice([0, rng.randint(0, nmig[a] - 1)])
+                 for a in mapps}
+    # an evolution app may be handed over to migrations by its last
+    # evolution (which then carries an AddField *and* MoveToDjangoMigrations)
+    moved = {a: rng.random() < 0.3 for a in eapps}
+    names = {a: ['0001_initial'] + ['%04d_x%d' % (k, k)
+                                    for k in range(2, nmig[a] + 1)]
+             for a in mapps}
+    pend_e = {a: [('E', a, 'e%d' % (k + 1))
+                  for k in range(applied_e[a], nevo[a])] for a in eapps}
+    pend_m = {a: [('M', a, names[a][k])
+                  for k in range(applied_m[a], nmig[a])] for a in mapps}
+    # hidden order: a random merge of the per-app pending chains
+    pools = {('E', a): list(v) for a, v in pend_e.items() if v}
+    pools.update({('M', a): list(v) for a, v in pend_m.items() if v})
+    merged = []
+    while pools:
+        k = rng.choice(sorted(pools))
+        merged.append(pools[k].pop(0))
+        if not pools[k]:
+            del pools[k]
+    pos = {u: i for i, u in enumerate(merged)}
+    constraints = []
+    for chain in list(pend_e.values()) + list(pend_m.values()):
+        for x, y in zip(chain, chain[1:]):
+            constraints.append((x, y))
+    # cross-app migration dependencies (pending on pending, consistent with
+    # the hidden order; or on an applied migration = always satisfied)
+    cross = {a: {} for a in mapps}
+    if len(mapps) == 2:
+        for a in mapps:
+            b = [x for x in mapps if x != a][0]
+            for k in range(applied_m[a], nmig[a]):
+                if rng.random() < 0.35:
+                    u = ('M', a, names[a][k])
+                    cands = [('M', b, n) for n in names[b]
+                             if ('M', b, n) not in pos or
+                             pos[('M', b, n)] < pos[u]]
+                    if cands:
+                        v = rng.choice(cands)
+                        cross[a].setdefault(k + 1, []).append((b, v[2]))
+                        if v in pos:
+                            constraints.append((v, u))
+    # evolution requirements on migrations
+    evo_deps = {}
+    for a in eapps:
+        for u in pend_e[a]:
+            deps = {}
+            for _rep in range(rng.choice([0, 1, 1, 2])):
+                b = rng.choice(mapps)
+                n = rng.choice(names[b])
+                v = ('M', b, n)
+                if (b, n) in deps.get('AFTER_MIGRATIONS', []) + deps.get(
+                        'BEFORE_MIGRATIONS', []):
+                    continue
+                if v not in pos or pos[v] < pos[u]:
+                    deps.setdefault('AFTER_MIGRATIONS', []).append((b, n))
+                    if v in pos:
+                        constraints.append((v, u))
+                else:
+                    deps.setdefault('BEFORE_MIGRATIONS', []).append((b, n))
+                    constraints.append((u, v))
+            if deps:
+                evo_deps[u] = deps
+    return {'eapps': eapps, 'mapps': mapps, 'nevo': nevo, 'nmig': nmig,
+            'applied_e': applied_e, 'applied_m': applied_m, 'names': names,
+            'pending': merged, 'constraints': constraints, 'cross': cross,
+            'evo_deps': evo_deps, 'moved': moved}
+
+
+def gen_mig_cross(rng):
+    """A dependency that crosses the two stages in which migrations are
+    planned: Z is a new migrations app (its initial migration is planned
+    before the evolutions), W is partly applied (its pending migration is
+    planned after them) and depends on Z's initial migration; evolutions of
+    two apps wait for W's pending migration and for Z's initial one."""
+    z, w = rng.sample(list(MIG_APPS), 2)
+    nmig = {z: rng.randint(1, 2), w: rng.randint(2, 3)}
+    applied_m = {z: 0, w: rng.randint(1, nmig[w] - 1)}
+    mapps = sorted([z, w])
+    names = {a: ['0001_initial'] + ['%04d_x%d' % (k, k)
+                                    for k in range(2, nmig[a] + 1)]
+             for a in mapps}
+    eapps = list(EVO_APPS)
+    early, late = rng.sample(eapps, 2)
+    nevo = {a: rng.randint(1, 2) for a in eapps}
+    applied_e = {a: rng.randint(0, nevo[a] - 1) for a in eapps}
+    wk = applied_m[w]               # index of W's first pending migration
+    W = ('M', w, names[w][wk])
+    Z = ('M', z, names[z][0])
+    ue = ('E', early, 'e%d' % (applied_e[early] + 1))
+    ul = ('E', late, 'e%d' % (applied_e[late] + 1))
+    cross = {a: {} for a in mapps}
+    cross[w][wk + 1] = [(z, names[z][0])]
+    evo_deps = {ue: {'AFTER_MIGRATIONS': [(w, W[2])]},
+                ul: {'AFTER_MIGRATIONS': [(z, Z[2])]}}
+    pend_e = {a: [('E', a, 'e%d' % (k + 1))
+                  for k in range(applied_e[a], nevo[a])] for a in eapps}
+    pend_m = {a: [('M', a, names[a][k])
+                  for k in range(applied_m[a], nmig[a])] for a in mapps}
+    constraints = [(Z, W), (W, ue), (Z, ul)]
+    for chain in list(pend_e.values()) + list(pend_m.values()):
+        constraints += list(zip(chain, chain[1:]))
+    pending = [u for c in list(pend_m.values()) + list(pend_e.values())
+               for u in c]
+    return {'eapps': eapps, 'mapps': mapps, 'nevo': nevo, 'nmig': nmig,
+            'applied_e': applied_e, 'applied_m': applied_m, 'names': names,
+            'pending': pending, 'constraints': constraints, 'cross': cross,
+            'evo_deps': evo_deps, 'moved': {a: False for a in eapps},
+            'cross_stage': True}
+
+
+def run_mig_case(desc):
+    rng = seqcase.rng_for('C09m', desc['seed'], desc['i'])
+    if desc['i'] % 4 == 3:
+        g = gen_mig_cross(rng)
+    else:
+        g = gen_mig(rng)
+    proj = projlab.Project()
+    items = []
+    stats = {'mig_projects': 1, 'constraints': len(g['constraints']),
+             'cross_stage_projects': int(bool(g.get('cross_stage')))}
+    case = {
+        'applied_e': g['applied_e'], 'applied_m': g['applied_m'],
+        'nevo': g['nevo'], 'nmig': g['nmig'],
+        'pending': ['%s:%s:%s' % u for u in g['pending']],
+        'constraints': [['%s:%s:%s' % x, '%s:%s:%s' % y]
+                        for x, y in g['constraints']],
+        'evo_deps': {'%s:%s:%s' % k: v for k, v in g['evo_deps'].items()},
+        'cross': g['cross'], 'moved': g['moved']}
+    try:
+        for a in g['eapps']:
+            n = g['nevo'][a]
+            versions = []
+            for v in range(n + 1):
+                fields = [['v', {'kind': 'Integer'}]] + [
+                    ['x%d' % (k + 1), {'kind': 'Integer', 'null': True}]
+                    for k in range(v)]
+                versions.append({'M': {'fields': fields, 'meta': {}}})
+            evolutions = []
+            for k in range(n):
+                u = ('E', a, 'e%d' % (k + 1))
+                texts = ["AddField('M', 'x%d', models.IntegerField, "
+                         "null=True)" % (k + 1)]
+                if g['moved'][a] and k == n - 1:
+                    texts.append('MoveToDjangoMigrations()')
+                evolutions.append((u[2], texts, g['evo_deps'].get(u) or {}))
+            proj.write_app(a, versions, evolutions, nv=list(range(n + 1)))
+            if g['moved'][a]:
+                # the migration the app is handed over to: the final table
+                pkg = proj.path(a, 'migs_real')
+                os.makedirs(pkg)
+                open(os.path.join(pkg, '__init__.py'), 'w').close()
+                fields = ''.join(
+                    "('x%d', models.IntegerField(null=True)), " % (k + 1)
+                    for k in range(n))
+                with open(os.path.join(pkg, '0001_initial.py'), 'w') as f:
+                    f.write(
+                        'from django.db import migrations, models\n\n\n'
+                        'class Migration(migrations.Migration):\n'
+                        '    initial = True\n    dependencies = []\n'
+                        "    operations = [migrations.CreateModel(name='M', "
+                        "fields=[('id', models.AutoField(auto_created=True, "
+                        "primary_key=True, serialize=False, "
+                        "verbose_name='ID')), ('v', models.IntegerField()), "
+                        '%s])]\n' % fields)
+        for a in g['mapps']:
+            proj.write_mig_app(a, g['nmig'][a], g['cross'][a])
+        db = 'db.sqlite3'
+        inst_apps = list(g['eapps']) + [a for a in g['mapps']
+                                        if g['applied_m'][a] > 0]
+        av = dict(g['applied_e'])
+        av.update({a: g['applied_m'][a] for a in g['mapps']})
+        migmods = {a: '%s.migs_%d' % (a, g['applied_m'][a])
+                   for a in g['mapps'] if g['applied_m'][a] > 0}
+        migmods.update({a: None for a in g['eapps']})
+        ev = proj.run('evolve_api', db=db, apps=inst_apps, app_versions=av,
+                      migmods=migmods)
+        if ev.get('driver_error') or not ev['outcome']['ok']:
+            return {'key': S.canon(desc), 'nontrivial': False, 'items': [],
+                    'stats': {'skipped_install_failed': 1}, 'case': case,
+                    'harness_error': str(ev.get('outcome') or ev)[:500]}
+        # ---- the observed upgrade
+        apps = list(g['eapps']) + list(g['mapps'])
+        av = dict(g['nevo'])
+        av.update(g['nmig'])
+        migmods = {a: '%s.migs_%d' % (a, g['nmig'][a]) for a in g['mapps']}
+        migmods.update({a: '%s.migs_real' % a if g['moved'][a] else None
+                        for a in g['eapps']})
+        drv = rng.choice(['evolve_api', 'evolve_cmd', 'migrate_cmd'])
+        ev = proj.run(drv, db=db, apps=apps, app_versions=av,
+                      migmods=migmods)
+        if ev.get('driver_error'):
+            return {'key': S.canon(desc), 'nontrivial': False, 'items': [],
+                    'stats': stats, 'case': case,
+                    'harness_error': str(ev)[:500]}
+        pending_temp = [None]
+        # order of execution: a migration is placed by its
+        # applying_migration signal, an evolution e<k> by the first
+        # statement that introduces its column x<k> (when the evolutions of
+        # one app are split over several batches every applying_evolution
+        # signal lists all of them - what the signals say is C17's matter)
+        import re
+        order = []
+        listed = []
+        for e in ev['events']:
+            if e['kind'] == 'signal' and e['name'] == 'applying_evolution':
+                listed += [('E', x[0], x[1]) for x in e.get('evolutions')
+                           or []]
+            elif e['kind'] == 'signal' and \
+                    e['name'] == 'applying_migration' and \
+                    e.get('migration') and e['migration'][0] in g['mapps']:
+                order.append(('M', e['migration'][0], e['migration'][1]))
+            elif e['kind'] == 'sql' and e.get('mutating') and e.get('ok') \
+                    and e.get('inrun'):
+                m = re.match(r'\s*(?:ALTER TABLE "(app[12])_m" ADD COLUMN '
+                             r'"x(\d)"|CREATE TABLE "TEMP_TABLE")', e['sql'])
+                if m and m.group(1):
+                    u = ('E', m.group(1), 'e' + m.group(2))
+                    if u not in order:
+                        order.append(u)
+                elif m:
+                    pending_temp[0] = [int(x) for x in re.findall(
+                        r'"x(\d)"', e['sql'])]
+                m2 = re.match(r'\s*ALTER TABLE "TEMP_TABLE" RENAME TO '
+                              r'"(app[12])_m"', e['sql'])
+                if m2 and pending_temp[0] is not None:
+                    for k in pending_temp[0]:
+                        u = ('E', m2.group(1), 'e%d' % k)
+                        if u not in order and u in set(g['pending']):
+                            order.append(u)
+                    pending_temp[0] = None
+        if len(listed) != len(set(listed)):
+            stats['signals_listing_an_evolution_twice'] = 1
+        ctx = {'driver': drv, 'mig': True}
+        o = ev['outcome']
+        stats['mig_orders_checked'] = 1
+        if not o['ok']:
+            items.append(dict(ctx, type='RUN_FAILED', exc=o['exc'],
+                              site=o.get('site'), msg=o.get('msg', '')[:200]))
+        else:
+            want = sorted(g['pending'])
+            if sorted(order) != want:
+                items.append(dict(
+                    ctx, type='PENDING_NOT_APPLIED_ONCE',
+                    missing=['%s:%s:%s' % x for x in want if x not in order],
+                    extra=['%s:%s:%s' % x for x in order if x not in want or
+                           order.count(x) > 1]))
+            p = {u: i for i, u in enumerate(order)}
+            for x, y in g['constraints']:
+                stats['constraints_checked'] = stats.get(
+                    'constraints_checked', 0) + 1
+                if x in p and y in p and p[x] > p[y]:
+                    # evidence for classification
+                    kinds = x[0] + y[0]
+                    items.append(dict(
+                        ctx, type='ORDER_VIOLATED', pair_kinds=kinds,
+                        before='%s:%s:%s' % x, after='%s:%s:%s' % y,
+                        after_is_initial_migration=(
+                            y[0] == 'M' and y[2] == '0001_initial'),
+                        before_is_later_evolution_of_app=(
+                            x[0] == 'E' and x[2] != 'e%d' % (
+                                g['applied_e'][x[1]] + 1)),
+                        after_is_later_evolution_of_app=(
+                            y[0] == 'E' and y[2] != 'e%d' % (
+                                g['applied_e'][y[1]] + 1)),
+                        observed=['%s:%s:%s' % u for u in order]))
+                    break
+    finally:
+        proj.cleanup()
+    return {'key': 'pipeline_mig:' + S.canon(case),
+            'nontrivial': bool(g['constraints']), 'items': items,
+            'stats': stats, 'case': case}
